@@ -42,7 +42,61 @@ def gen(profile, **kw):
     return g
 
 
+def gen_scale(rng):
+    """Large archives x large batches: the per-cell winner must not depend on any index arithmetic that runs out of
+    range (cell index x batch size beyond 2^31, counts beyond a block size ...)."""
+    side = rng.choice([1000, 1500, 2000])
+    return {"kind": "scale", "side": side, "n": rng.choice([3000, 5000, 5000, 8000]), "dtype": rng.choice(["f32", "f64"]),
+            "seed": rng.randrange(10**6), "high": rng.random() < 0.7, "ops": [{"op": "add"}, {"op": "add"}]}
+
+
+def run_scale(case):
+    """Oracle only (spec-shaped): per cell the highest objective wins, the earliest candidate on ties."""
+    import numpy as np
+    from core import Failure
+    from ribs.archives import GridArchive
+    side, n = case["side"], case["n"]
+    r = np.random.default_rng(case["seed"])
+    dt = np.float32 if case["dtype"] == "f32" else np.float64
+    a = GridArchive(solution_dim=1, dims=[side, side], ranges=[(0, side), (0, side)], dtype=dt)
+    best = {}       # cell -> (objective, token)
+    tok = 0
+    for _ in case["ops"]:
+        ncell = max(1, n // 3)
+        # cells with large flat indices (the upper rows of the grid), each hit about three times
+        rows = r.integers(side * 4 // 5 if case["high"] else 0, side, size=ncell)
+        cols = r.integers(0, side, size=ncell)
+        pick = r.integers(0, ncell, size=n)
+        obj = r.integers(-5, 6, size=n).astype(np.float64) * 1000.0      # many exact ties
+        meas = np.stack([rows[pick] + 0.5, cols[pick] + 0.5], axis=1)
+        sol = (np.arange(n, dtype=np.float64) + tok)[:, None]
+        info = a.add(sol, obj, meas)
+        for k in range(n):
+            cell = int(rows[pick[k]]) * side + int(cols[pick[k]])
+            cur = best.get(cell)
+            if cur is None or obj[k] > cur[0]:
+                best[cell] = (float(obj[k]), tok + k)
+        tok += n
+        d = a.data()
+        got = {int(i): (float(o), int(s[0])) for i, o, s in zip(d["index"], d["objective"], d["solution"])}
+        if len(d["index"]) != len(got):
+            return Failure("oracle", f"[C01] {side}x{side} archive, batch of {n}: data() lists a cell twice")
+        if set(got) != set(best):
+            return Failure("oracle", f"[C01] {side}x{side} archive, batch of {n}: occupied cells differ from the cells that "
+                           f"received a candidate ({len(got)} vs {len(best)})")
+        for cell, want in best.items():
+            if got[cell] != want:
+                return Failure("oracle", f"[C01] {side}x{side} {case['dtype']} archive, one add of {n} candidates: cell {cell} "
+                               f"holds candidate {got[cell][1]} (objective {got[cell][0]}) but the best routed there, earliest "
+                               f"first on ties, is candidate {want[1]} (objective {want[0]})")
+        if len(info["status"]) != n:
+            return Failure("oracle", "[C01] add feedback has the wrong length")
+    return None
+
+
 def run_case(case):
+    if case.get("kind") == "scale":
+        return run_scale(case)
     return archlib.run_case(case, PROPS)
 
 
@@ -51,6 +105,7 @@ def run(ctx):
     for name, n in [("mixed", ctx.n(160, 12000)), ("percell", ctx.n(120, 8000)), ("ties", ctx.n(120, 8000)),
                     ("collide", ctx.n(100, 6000)), ("extreme", ctx.n(80, 5000))]:
         ctx.explore(name, gen(name), run_case, n, nontrivial=archlib.nontrivial_c01, time_budget=budget)
+    ctx.explore("scale", gen_scale, run_case, ctx.n(4, 200), time_budget=6 if ctx.quick else 60)
 
 
 def replay(ctx, case):
